@@ -568,7 +568,7 @@ def case_seq(rec, c):
     rec.outcome(core.digest([rank, L, c['ops'], A.data.ravel()[:5]], 7))
 
 
-IDENT_OPS = ['+=s', '*=s', '-=M', 'set', 'setM', 'inv', 'new', 'oop', 'dot?', 'inv?']
+IDENT_OPS = ['+=s', '*=s', '-=M', 'set', 'setM', 'inv', 'new', 'oop', 'dot?', 'inv?', 'copy?']
 
 
 def case_ident_seq(rec, c):
@@ -639,6 +639,12 @@ def case_ident_seq(rec, c):
                 if not float(np.max(np.abs(R.data - want))) <= 1e-8 * max(1.0, float(np.max(np.abs(want)))):
                     rec.fail(hist, 'history %s: invert() of the (modified) IdentityMatrixArray is not the inverse of its current contents' % (c['ops'][:n + 1],),
                              tags('value', op='identity', seq=True))
+                    return
+            elif op == 'copy?':
+                Cp = I1.get_copy()
+                if np.shares_memory(Cp.data, I1.data) or not np.array_equal(Cp.data, I1.data):
+                    rec.fail(hist, 'history %s: get_copy() of the (modified) IdentityMatrixArray is not an independent copy of its current contents' % (c['ops'][:n + 1],),
+                             tags('alias', op='identity', seq=True))
                     return
             elif op == 'oop':
                 D = I2 - M
